@@ -19,6 +19,9 @@ def run(chk):
         for name, hyps, goal in lemmas_merge_log(ceil, tag):
             if ":c09:" in name:
                 chk.prove("lemma:" + name, hyps, goal)
+    from . import C15
+
+    C15.merge_glue(chk, ["CountMinLinear", "CountMinLog16", "CountMinLog8"])  # merge() reaches the kernel on every accepting path
     _cm.crosscheck_linear(chk)
     quick = chk.tier == "quick"
     cases, fails, first = _log.merge_standin(chk, quick)
